@@ -839,6 +839,8 @@ func main() {
 		// > 1 MiB cumulative several times over: forces rotation by size
 		runHistory(out, rng.Fork(uint64(idx)), root, idx, profile{name: "big", ops: 40 + rng.Intn(40), padMax: 200, bigProb: 2, bigMax: 500 << 10, tornP: 10, tornMax: 40, final: true, calm: true}, &ids, &budget, &forks)
 	}
+	// the every-byte-offset series get their own IO budget
+	budget = int64(vh.EnvInt("VERIF_WAL_FULL_BUDGET_MB", map[bool]int{false: 400, true: 12000}[thorough])) << 20
 	for i := 0; i < nFull; i++ {
 		idx++
 		// every byte offset of one larger record in a small directory
